@@ -41,6 +41,50 @@ CHECKS["C13"] = dict(
     note=("Not decided: number, distinctness, ordering, loop-freeness of returned routes, termination of the drivers (Yen's loop), error propagation from spur searches."),
     technique=TECH,
 )
+CHECKS["C11"] = dict(
+    text=("Inductive step on the ordered container behind the state model and the adjacency lists: from a valid pre-state of EVERY representation "
+          "(empty, One..Four, N5, N6, N7) one insert with a fully symbolic key and value is decided by CBMC: a new key takes index old_len, a hit keeps "
+          "index and replaces the value, old entries are untouched, and get / get_index / get_pair / len / iter agree on the post-state. "
+          "Histories of any length within 8 entries are covered step by step; bounded, not a proof."),
+    design_ref="DESIGN.md section 4, C11",
+    note=("Trusted: hook H1 table model standing in for std HashMap (contract: finite partial function), concrete pre-state keys (symmetry argument). "
+          "Not decided: StateModel name-keyed get/set/add beyond what C03 lists, CompactOrderedHashMap::new with duplicate keys, > 8 entries."),
+    technique=TECH,
+)
+CHECKS["C07"] = dict(
+    text=("CBMC decides, for concrete model shapes (1-2 features, each rate variant, each network-rate variant, Sum/Mul) and ALL weights, rate parameters, "
+          "surcharges, edge ids and previous/next states in the stated ranges, that traversal and access cost are finite and > 0 and the estimate finite and >= 0; "
+          "at kernel level that one feature contributes weight x rated change (0.1 percent), exactly nothing for a zero weight or zero rate, with exact sign "
+          "structure, that rate variants and lookup tables mean what is documented, and the floor / clip rules exactly."),
+    design_ref="DESIGN.md section 4, C07",
+    note=("Trusted: hooks H1 (table model) and H2 (CostModel::verif_from_parts), non-recursive stubs of the rate kernels at model level (assume-guarantee; "
+          "the real kernels are decided per shape). Not decided: CostModel::new, deep Combined rates, bit-exact linearity, EdgeTraversal::total_cost absorption."),
+    technique=TECH,
+)
+CHECKS["C17"] = dict(
+    text=("The product iterator behind grid-search expansion is decided shape by shape: the shape space (1..3 axes x 1..3 options, 39 shapes) is enumerated "
+          "exhaustively and for each shape CBMC decides, for all element values, that exactly prod(n_i) combinations are produced, combination j being the "
+          "mixed-radix decoding of j, then None forever - with every index / overflow check on the way."),
+    design_ref="DESIGN.md section 4, C17",
+    note="The JSON side of GridSearchPlugin::process is not covered (serde_json objects). Weakest use of the technique in this suite: the shape is enumerated, only element values are solver-decided.",
+    technique=TECH + "; shape space enumerated exhaustively",
+)
+CHECKS["C12"] = dict(
+    text=("Two kernels a malformed batch reaches are decided not to panic or run without bound: the product iterator on every degenerate grid (no axes, empty axes; "
+          "46 shapes up to 3x3) ends after the right number of combinations, and the inject plugin answers a non-object query (Bool / any u64 Number, any overwrite "
+          "policy) with an 'unexpected query structure' error."),
+    design_ref="DESIGN.md section 4, C12",
+    note="CompassApp::run, every JSON-object based plugin, map matching and the search itself are not covered; this is a kernel-level partial claim.",
+    technique=TECH,
+)
+CHECKS["C04"] = dict(
+    text=("For each restriction kind and each pair of vehicle / limit units CBMC decides over all quantities and limits that the edge is usable exactly when the "
+          "vehicle quantity, converted with the PHYSICAL factor, does not exceed the limit (outside a 0.1 percent band), that zero axles never pass a per-axle limit, "
+          "and that a combined model permits an edge only if every inner model does (errors propagate, never 'usable')."),
+    design_ref="DESIGN.md section 4, C04",
+    note="Road-class, turn-restriction and per-edge restriction table lookups (std hash containers in the app crate), the edge-cut wrapper and the search loop are not covered.",
+    technique=TECH,
+)
 NOT_APPLICABLE = {
     "C01": "not built yet (planned: backtrack / orientation kernels, DESIGN section 4)",
     "C02": "optimality quantifies over all paths of all graphs and the haversine estimate; the search loop could not be encoded (four encodings, no verdict in 19-25 min) and trigonometric builtins are over-approximated by CBMC",
